@@ -123,3 +123,95 @@ def summarize_outcome(rec, names):
                 codes.append((e['ev'] + ':' + rc, None))
             final = json.dumps(e['out'], sort_keys=True)
     return {'hooks': hooks, 'codes': codes, 'final': final}
+
+
+# ---------------------------------------------------------------------------
+def witness_of(r, rep=None):
+    p = r['prog']
+    w = {'program': p.name, 'args': p.args, 'source': p.src, 'input_hex': r['data'].hex(), 'input': repr(r['data']),
+         'chunks': list(r['parts'])}
+    if rep:
+        w['report'] = {k: rep.get(k) for k in ('ei', 'ev', 'clauses', 'spec', 'impl', 'why', 'detail') if k in rep}
+    return w
+
+
+def run_pipeline(chk, items, rng, seed, nwalks=8, maxlen=24, chunk_mode='some', chunk_limit=4, sanitize=False,
+                 post_terminal=0, extra_inputs=None, share_inputs_by='src', classify=None, tlc_parallel=4,
+                 keep_records=False):
+    """items: (name, src, args).  Files violations on chk; returns dict with progs, records, cases, verdicts, stats."""
+    t0 = time.time()
+    progs = runner.compile_programs(items)
+    accepted = [p for p in progs if p.ok]
+    root = runner.scratch_dir()
+    out = {'progs': progs, 'root': root}
+    try:
+        runner.build_programs(progs, root, sanitize=sanitize, also_plain=True)
+        unbuildable = [p for p in accepted if not p.bin]
+        # inputs: one set per distinct source (so that option sets of one program see the same inputs)
+        inputs = {}
+        crashes = []
+        for p in accepted:
+            if not p.bin or p.src in inputs:
+                continue
+            cr = []
+            ins = runner.walk_inputs(p, nwalks, maxlen, rng, crashes=cr)
+            if extra_inputs:
+                ins = ins + list(extra_inputs(p))
+            # dedupe, keep order
+            seen = set()
+            inputs[p.src] = [x for x in ins if not (x in seen or seen.add(x))]
+            for data, rc in cr:
+                crashes.append((p, data, rc))
+        recs = record_all(progs, inputs, rng, chunk_mode, chunk_limit, sanitize=sanitize, post_terminal=post_terminal, seed=seed)
+        good = [r for r in recs if r['rec']['status'] == 'ok']
+        bad = [r for r in recs if r['rec']['status'] != 'ok']
+        cases, skipped = to_cases(good)
+        verd, stats = runner.validate_traces(cases, shards=tlc_parallel, workers=4)
+        out.update(records=recs if keep_records else None, cases=cases, verdicts=verd, stats=stats, inputs=inputs,
+                   unbuildable=unbuildable, bad=bad, crashes=crashes)
+        counts = {'ACCEPT': 0, 'REJECT': 0, 'SKIP': 0, 'NONE': 0}
+        for c in cases:
+            v, rep = verd[c['key']]
+            counts[v] += 1
+            if v == 'REJECT':
+                fid = classify(c['rec'], rep) if classify else None
+                chk.violation('trace rejected by ApiTrace: clauses %s at event %s (%s) of %s %s input %r chunks %s'
+                              % (json.dumps(rep.get('clauses')), rep.get('ei'), rep.get('ev'), c['rec']['prog'].name,
+                                 c['rec']['prog'].args, c['rec']['data'], list(c['rec']['parts'])),
+                              witness_of(c['rec'], rep), fid)
+            elif v == 'NONE':
+                chk.machinery_error('no verdict for trace %s' % (c['key'],))
+            if c.get('trunc') and v == 'ACCEPT':
+                # a truncated log whose prefix is fine: memerr or wide values
+                if c['trunc'] == 'memerr':
+                    chk.violation('free of a non-live block reported by the tracked allocator', witness_of(c['rec']), None)
+        for r in bad:
+            fid = classify(r, {'status': r['rec']['status']}) if classify else None
+            what = 'driver %s (no return from the API call)' % r['rec']['status'] if r['rec']['status'] == 'hang' else \
+                'driver died: %s' % (r['rec'].get('stderr', '')[-400:])
+            chk.violation('%s on %s %s input %r chunks %s' % (what, r['prog'].name, r['prog'].args, r['data'], list(r['parts'])),
+                          witness_of(r), fid)
+        for p, data, rc in crashes:
+            fid = classify({'prog': p, 'data': data, 'parts': [1] * len(data), 'rec': {'status': 'died'}}, {'status': 'died'}) if classify else None
+            chk.violation('driver died (rc=%s) during a byte-by-byte walk of %s %s on input %r' % (rc, p.name, p.args, data),
+                          {'program': p.name, 'args': p.args, 'source': p.src, 'input_hex': data.hex(), 'chunks': [1] * len(data)}, fid)
+        for e in stats['errors']:
+            chk.machinery_error('TLC: ' + str(e)[:1500])
+        out['counts'] = counts
+        out['wall'] = time.time() - t0
+        return out
+    finally:
+        if not keep_records:
+            shutil.rmtree(root, ignore_errors=True)
+
+
+def sample_cases(out, k=3):
+    """a few recorded traces, written out, for the evidence file"""
+    samples = []
+    for c in out['cases'][:: max(1, len(out['cases']) // k)][:k]:
+        r = c['rec']
+        samples.append({'program': r['prog'].name, 'args': r['prog'].args, 'input': repr(r['data']), 'chunks': list(r['parts']),
+                        'calls': [cmd for cmd in r['rec']['script'] if cmd[0] in 'SFEX'],
+                        'returned': [e.get('rc') for e in r['rec']['events'] if 'rc' in e],
+                        'verdict': out['verdicts'][c['key']][0]})
+    return samples
